@@ -242,6 +242,84 @@ CORPUS = [
 ]
 
 
+# ------------------------------------------------------------------ re-entrant user callbacks on the start Deferred
+# Implementation side only (the model does not contain user callbacks): the common pattern
+#     consumer.start(off).addErrback(lambda f: consumer.stop())          (also commit() / shutdown())
+# runs stop() synchronously inside whatever handler reports the failure.  Monitors: the hooked stop() returns, leaves
+# nothing running at the end of the step, nothing is sent / scheduled / delivered after it inside the step, the start
+# Deferred fires once.
+class HookedDriver(L.Driver):
+    def __init__(self, cfg, hook, **kw):
+        self.hook = hook
+        self.hook_log = []          # (step_no, hook, "ret"/"raised", value, trace length when the hook finished)
+        L.Driver.__init__(self, cfg, **kw)
+
+    def watch(self, d, tag, *ids):
+        if tag == L.OUT_START_D and self.hook:
+            def run_hook(f):
+                try:
+                    if self.hook == 1:
+                        r = self.consumer.stop()
+                    elif self.hook == 2:
+                        r = self.consumer.commit()
+                        r.addErrback(lambda _f: None)
+                        r = 0
+                    else:
+                        r = self.consumer.shutdown()
+                        r.addErrback(lambda _f: None)
+                        r = 0
+                    self.hook_log.append((self.step_no, self.hook, "ret", L.v(r) if (r is None or isinstance(r, int)) else 0, len(self.trace)))
+                except Exception as e:
+                    self.hook_log.append((self.step_no, self.hook, "raised", L.fk_of(e), len(self.trace)))
+                return f
+            d.addErrback(run_hook)
+        L.Driver.watch(self, d, tag, *ids)
+
+
+def run_hooked(cfg, events, hook):
+    L.quiet()
+    drv = HookedDriver(cfg, hook)
+    obs, marks = [], []
+    for ev in events:
+        before = len(drv.trace)
+        drv.step(ev)
+        obs.append(drv.observe())
+        marks.append((before, len(drv.trace)))
+    return drv, obs, marks
+
+
+def monitor_hooked(cfg, events, drv, obs, marks):
+    bad = []
+    nstartd = 0
+    pending = False
+    steps, _ = L.split_steps(drv.trace)
+    for i, (ev, outs) in enumerate(zip(events, steps)):
+        if ev[0] == L.EV_START and (L.OUT_RET, 0) in outs:
+            pending = True
+        for o in outs:
+            if o[0] == L.OUT_START_D:
+                if not pending:
+                    bad.append(("C13_start_once", i, "start Deferred outcome %r reported while none is pending (re-entrant callback)" % (o,)))
+                pending = False
+    for (step, hook, how, val, tlen) in drv.hook_log:
+        i = step - 1
+        if hook == 1:
+            if how == "raised" and val != L.X_RESTOP:
+                bad.append(("C13_stop_returns", i, "stop() called from the start Deferred's errback raised %d" % val))
+            if how == "ret":
+                # what the step emitted after the hooked stop() returned
+                tail = drv.trace[tlen:marks[i][1]]
+                later, _ = L.split_steps(tail + [L.OUT_END, 0, 0]) if tail else ([[]], None)
+                acts = [o for o in later[0] if o[0] in L.ACTIVITY]
+                if acts:
+                    bad.append(("C13_quiescent_after_stop", i, "after stop() (called from the start Deferred's errback) returned: %r" % (acts[:3],)))
+                if not idle(obs[i]):
+                    bad.append(("C13_quiescent_after_stop", i, "stop() called from the start Deferred's errback returned but something is still running: %r" % (obs[i],)))
+        elif how == "raised":
+            bad.append(("C13_hook", i, "%s called from the start Deferred's errback raised %d" % ({2: "commit()", 3: "shutdown()"}[hook], val)))
+    return bad
+
+
 def describe(c):
     return {"cfg": dict(zip(L.Cfg.FIELDS, c[1:11])), "events_line": c[11:71]}
 
@@ -295,6 +373,29 @@ def run(ck):
                                                alphabet=small_alphabet, limit=9000):
                 ex.append((cfg, evs))
         batches.append(("exhaustive depth-5 enumeration (15-event alphabet, enabled events only) after start+first block, 3 configurations", ex))
+
+    # ---- implementation-side only: re-entrant callbacks on the start Deferred (no model counterpart)
+    nh = 0
+    hooked_bad = 0
+    for _ in range(250 * scale):
+        hook = rnd.choice([1, 1, 1, 2, 3])
+        cfg, evs, _ = L.gen_case(rnd, rnd.choice([10, 20, 35]), weights={L.EV_REQ_FAIL: 10, L.EV_PLAN: 8, L.EV_COMMIT_FAIL: 8, L.EV_FIRE_RETRY: 8,
+                                                                     L.EV_STOP: 1, L.EV_SHUTDOWN: 1, L.EV_START: 5})
+        cfg.maxatt = rnd.choice([1, 2, 3]) if rnd.random() < 0.7 else cfg.maxatt
+        drvh, obsh, marks = run_hooked(cfg, evs, hook)
+        nh += len(drvh.hook_log)
+        ck.hist("hooked_errback:%d" % hook, len(drvh.hook_log))
+        bh = monitor_hooked(cfg, evs, drvh, obsh, marks)
+        if bh:
+            hooked_bad += 1
+            if hooked_bad <= 2:
+                small = L.shrink(cfg, evs, lambda c, e: bool(monitor_hooked(c, e, *run_hooked(c, e, hook))))
+                d2, o2, m2 = run_hooked(cfg, small, hook)
+                b2 = monitor_hooked(cfg, small, d2, o2, m2) or bh
+                ck.violation({"kind": "monitor failed on the implementation's trace (re-entrant callback on the start Deferred)", "theorem": b2[0][0],
+                              "step": b2[0][1], "what": b2[0][2], "hook": {1: "stop()", 2: "commit()", 3: "shutdown()"}[hook], "cfg": cfg.line(),
+                              "events": [list(e) for e in small], "impl_trace": d2.trace, "replay_op": "hooked", "hook_code": hook})
+    ck.cov["hooked_start_errback_runs"] = {"cases": 250 * scale, "hook_invocations": nh, "failing": hooked_bad}
 
     nbad = 0
     for label, items in batches:
@@ -395,6 +496,15 @@ def run(ck):
 
 def replay(rp):
     import json
+    if rp.get("replay_op") == "hooked":
+        cfg = L.Cfg.from_line(rp["cfg"])
+        events = [tuple(e) for e in rp["events"]]
+        drv, obs, marks = run_hooked(cfg, events, rp["hook_code"])
+        L.print_case(cfg, events, drv.trace)
+        print("hook log:", drv.hook_log)
+        bad = monitor_hooked(cfg, events, drv, obs, marks)
+        print("monitor verdict:", bad if bad else "passes")
+        return 1 if bad else 0
     if rp.get("replay_op") != "case":
         print(json.dumps(rp, indent=1, default=repr)[:4000])
         return 1
